@@ -98,7 +98,11 @@ func (vc *VC) safetyProps(kind string) []string {
 }
 
 func (vc *VC) lockProps() []string {
-	return []string{"C08"}
+	out := []string{"C08"}
+	if fc := vc.eng.contractOf(vc.fn); fc != nil {
+		out = append(out, fc.LockProps...)
+	}
+	return out
 }
 
 func (vc *VC) specError(fr *Frame, c *Clause, err error) {
